@@ -9,18 +9,24 @@ def run(tier, rep):
     srcs = all_sources(tier, sd)
     tasks = []
     for i, s in enumerate(srcs):
-        dyn = (i + sd) % (4 if tier == "quick" else 1) == 0
-        tasks.append(dict(src=s, dynamic=dyn, modes=("MCS", "GENERATIONAL", "TOPOLOGICAL") if not dyn or tier == "thorough" else (("MCS", "GENERATIONAL", "TOPOLOGICAL")[i % 3],), prunes=(True, False) if not dyn or tier == "thorough" else (bool(i % 2),), seed=sd))
+        core = s["name"].startswith(("async.H", "raw.fan", "raw.ratio", "raw.abc", "gen.3n"))
+        dyn = core or (i + sd) % (4 if tier == "quick" else 1) == 0
+        if dyn and tier == "quick":
+            # static replay of all variants + dynamic probe runs of two rotated modes (always one of GENERATIONAL / TOPOLOGICAL)
+            tasks.append(dict(src=s, dynamic=False, seed=sd))
+            tasks.append(dict(src=s, dynamic=True, modes=(("GENERATIONAL", "TOPOLOGICAL")[(i + sd) % 2], ("MCS", "TOPOLOGICAL", "GENERATIONAL")[(i + sd) % 3]), prunes=(bool((i + sd) % 2),), seed=sd))
+        else:
+            tasks.append(dict(src=s, dynamic=dyn, seed=sd))
     with Pool() as pool:
         results = list(pool.imap("vf.compiled_tasks", "c08_task", tasks))
     _collect(rep, results, "buffers")
     rep.add(traces=sum(r["traces"] for r in results))
     rep.section("options", buffer_options=["auto", "auto+pad1", "user=auto", "user=auto+2", "auto-1 (must be rejected)"], rejected_inadmissible=sum(r["rejected"] for r in results),
-                dynamic_probe_runs=sum(r["traces"] for r in results), dynamic_sources=sum(1 for t in tasks if t["dynamic"]))
+                dynamic_probe_runs=sum(r["traces"] for r in results), dynamic_sources=sum(1 for t in tasks if t["dynamic"]), dynamic_options=["auto", "auto+pad1", "user=auto+2"])
     for r in results[:2]:
         rep.sample(dict(source=r["name"], instances=r["instances"], reads=r["transitions"]))
     if tier == "quick":
-        rep.not_exhaustive("quick tier: rotated slice of the sources; dynamic probe runs on every 4th source, one mode each")
+        rep.not_exhaustive("quick tier: rotated slice of the family sources; dynamic probe runs on the core sources and every 4th family source, two modes each")
     rep.assume("static part: abstract ring-buffer machine replaying graph.timings in execution order (reads of a generation see the buffer as of generation start)",
                "dynamic part: payload tags (producer, eps, seq) observed by the probes' host-side trace; starting step 0, every episode")
 
